@@ -137,6 +137,11 @@ def _digests():
     out = {}
     for k, c in _containers().items():
         try:
+            if isinstance(c, dict) and all(isinstance(v, type) for v in list(c.values())):
+                # a cache of lazily created classes (e.g. the parametrised-type caches, whatever they are called):
+                # grows legitimately; an influence on the output would show in the byte comparison
+                out[k] = "class-cache"
+                continue
             if isinstance(c, dict):
                 items = sorted(_canon(a) + ":" + _canon(b) for a, b in list(c.items()))
             else:
